@@ -3,12 +3,13 @@
     Everything is stated for the GENERATED decision logic (ExecGen.v). *)
 From Coq Require Import Lia.
 From MWF Require Import Base.Util Base.UtilLemmas Exec.ExecBase Exec.ExecGen Exec.ExecRun Exec.ExecTrace
-  Exec.ExecGraph Exec.ExecInv Exec.ExecVerdict.
+  Exec.ExecGraph Exec.ExecInv Exec.ExecVerdict Exec.ExecPoll.
 
 #[local] Arguments bfs_subtree : simpl never.
 #[local] Arguments submit_attempts : simpl never.
 #[local] Arguments mark_failed_list : simpl never.
 #[local] Arguments mark_cancelled_list : simpl never.
+#[local] Arguments set_union : simpl never.
 
 (** * Part A: frame facts of the opaque combinators *)
 
@@ -106,12 +107,12 @@ Lemma lv_mfl l : forall s,
   deps s' = deps s /\ canceled s' = canceled s /\
   (forall y, restarts (getrec s' y) = restarts (getrec s y)) /\
   (forall y, In y (failed s') <-> In y l \/ In y (failed s)) /\
-  st_frame (fun y => In y l) s s'.
+  st_frame (fun y => In y l) s s' /\ length (recs s') = length (recs s).
 Proof.
   unfold mark_failed_list. induction l as [|a l IH]; intros s; cbn [fold_left].
   - splits; auto. + intros y. cbn. tauto. + apply st_frame_refl.
   - specialize (IH (rec_set_status a FAILED (failed_add a s))). cbn zeta in IH.
-    destruct IH as (A & B & C & D & E & F & G & H & K). splits; try (etransitivity; [eassumption|reflexivity]).
+    destruct IH as (A & B & C & D & E & F & G & H & K & L). splits; try (etransitivity; [eassumption|reflexivity]).
     + intros y. rewrite G. rewrite restarts_set_status. reflexivity.
     + intros y. rewrite H. change (failed (rec_set_status a FAILED (failed_add a s))) with (sadd a (failed s)).
       rewrite In_sadd. cbn [In]. intuition.
@@ -121,6 +122,7 @@ Proof.
         2:{ apply st_frame_set_status. discriminate. }
         intros y <-. left. reflexivity.
       * intros y Hy. right. exact Hy.
+    + rewrite L. rewrite len_recs_set_status. reflexivity.
 Qed.
 
 Lemma lv_mcl l : forall s,
@@ -129,12 +131,12 @@ Lemma lv_mcl l : forall s,
   deps s' = deps s /\ canceled s' = canceled s /\
   (forall y, restarts (getrec s' y) = restarts (getrec s y)) /\
   (forall y, In y (cancelled s') <-> In y l \/ In y (cancelled s)) /\
-  st_frame (fun y => In y l) s s'.
+  st_frame (fun y => In y l) s s' /\ length (recs s') = length (recs s).
 Proof.
   unfold mark_cancelled_list. induction l as [|a l IH]; intros s; cbn [fold_left].
   - splits; auto. + intros y. cbn. tauto. + apply st_frame_refl.
   - specialize (IH (rec_set_status a CANCELLED (cancelled_add a s))). cbn zeta in IH.
-    destruct IH as (A & B & C & D & E & F & G & H & K). splits; try (etransitivity; [eassumption|reflexivity]).
+    destruct IH as (A & B & C & D & E & F & G & H & K & L). splits; try (etransitivity; [eassumption|reflexivity]).
     + intros y. rewrite G. rewrite restarts_set_status. reflexivity.
     + intros y. rewrite H. change (cancelled (rec_set_status a CANCELLED (cancelled_add a s))) with (sadd a (cancelled s)).
       rewrite In_sadd. cbn [In]. intuition.
@@ -144,6 +146,7 @@ Proof.
         2:{ apply st_frame_set_status. discriminate. }
         intros y <-. left. reflexivity.
       * intros y Hy. right. exact Hy.
+    + rewrite L. rewrite len_recs_set_status. reflexivity.
 Qed.
 
 Lemma lv_In_set_union l : forall acc y, In y (set_union l acc) <-> In y l \/ In y acc.
@@ -156,10 +159,11 @@ Qed.
 (** ** the submission retry loop *)
 Lemma lv_submit g x restart n : forall s,
   same_view s (snd (submit_attempts g x restart n s)) /\
-  st_frame (eq x) s (snd (submit_attempts g x restart n s)).
+  st_frame (eq x) s (snd (submit_attempts g x restart n s)) /\
+  length (recs (snd (submit_attempts g x restart n s))) = length (recs s).
 Proof.
   unfold submit_attempts. induction n as [|n IH]; intros s.
-  - cbn. splits; [apply same_view_refl | apply st_frame_refl].
+  - cbn. splits; [apply same_view_refl | apply st_frame_refl | reflexivity].
   - fold submit_attempts in *.
     set (s1 := if restart then emit (EGen x) s else rec_set_status x PENDING s).
     set (s2 := if scheduled (attr g x) then s1 else rec_set_status x RUNNING s1).
@@ -169,6 +173,8 @@ Proof.
     { unfold s1; destruct restart; [apply st_frame_same_recs; reflexivity | apply st_frame_set_status; discriminate]. }
     assert (F2 : st_frame (eq x) s1 s2).
     { unfold s2; destruct (scheduled (attr g x)); [apply st_frame_refl | apply st_frame_set_status; discriminate]. }
+    assert (L2 : length (recs s2) = length (recs s)).
+    { unfold s2, s1. destruct (scheduled (attr g x)), restart; rewrite ?len_recs_set_status; reflexivity. }
     pose proof (sv_next_sub s2) as V3.
     assert (F3 : recs (snd (next_sub s2)) = recs s2) by (unfold next_sub; destruct (subs s2); reflexivity).
     destruct (next_sub s2) as [b s3] eqn:E3. cbn [snd] in V3, F3.
@@ -182,12 +188,14 @@ Proof.
         intros y. left.
         transitivity (status (getrec (rec_push_job x (next_job s3) (set_next_job s3 (S (next_job s3)))) y)); [reflexivity|].
         rewrite status_push_job. reflexivity.
+      * cbn. rewrite length_upd. rewrite F3. exact L2.
     + specialize (IH (emit (ESubmit x (if restart then Restart else Main) (scheduled (attr g x)) None) s3)).
-      destruct IH as (A & B). splits.
+      destruct IH as (A & B & C). splits.
       * eapply same_view_trans; [exact V1|]. eapply same_view_trans; [exact V2|]. eapply same_view_trans; [exact V3|].
         eapply same_view_trans; [apply sv_emit|]. exact A.
       * eapply st_frame_trans; [exact F1|]. eapply st_frame_trans; [exact F2|]. eapply st_frame_trans; [exact F3'|].
         eapply st_frame_trans; [apply st_frame_same_recs; reflexivity|]. exact B.
+      * rewrite C. cbn. rewrite F3. exact L2.
 Qed.
 
 (** * Part B: [bfs_subtree] is closed under [children] (the fuel suffices) *)
@@ -372,7 +380,8 @@ Record astep (g : graph) (hw : bool) (x : nat) (s : st) (R : list nat) (s' : st)
   as_deps : forall y, incl (getdeps s' y) (getdeps s y);
   as_canceled : canceled s' = canceled s;
   as_clo : WF g -> clo g s R -> clo g s' R';
-  as_x : resR s' R' x \/ In x (inprog s') \/ xsame x s s' \/ xstaged x s s' \/ (hw = true /\ In x (ready s')) }.
+  as_x : resR s' R' x \/ In x (inprog s') \/ xsame x s s' \/ xstaged x s s' \/ (hw = true /\ In x (ready s'));
+  as_len : length (recs s') = length (recs s) }.
 
 Definition wle (g : graph) (s : st) (R : list nat) (s' : st) (R' : list nat) : Prop :=
   forall y, wtR g s' R' y <= wtR g s R y.
@@ -424,3 +433,472 @@ Qed.
 
 Lemma astep_depsok g hw x s R s' R' : astep g hw x s R s' R' -> depsok g s -> depsok g s'.
 Proof. intros A D y z Hz. apply D. eapply as_deps; eauto. Qed.
+
+(** * Part D: the pieces of a poll as [astep]s *)
+Ltac ex_sets := cbn [completed inprog ready failed cancelled deps canceled completed_add inprog_add inprog_remove
+  failed_add cancelled_add ready_push rec_set_status rec_inc_restarts rec_push_job deps_prune emit set_recs
+  set_completed set_inprog set_failed set_cancelled set_ready set_deps set_canceled set_next_job set_subs set_evs
+  fst snd] in *.
+Ltac gr := repeat match goal with
+  | |- context [getrec (?f ?a ?s) ?y] => progress change (getrec (f a s) y) with (getrec s y)
+  | |- context [getrec (?f ?s ?a) ?y] => progress change (getrec (f s a) y) with (getrec s y)
+  end.
+
+Definition src (s : st) (R : list nat) (y : nat) : Prop :=
+  In y (failed s) \/ In y R \/ (canceled s = false /\ In y (cancelled s)).
+
+Lemma clo_step g s R s' R' : clo g s R -> (forall z, FC s R z -> FC s' R' z) ->
+  (forall y, src s' R' y -> src s R y \/ (forall ch, In ch (children (attr g y)) -> FC s' R' ch)) -> clo g s' R'.
+Proof.
+  intros C M S y Hy ch Hc. destruct (S y Hy) as [K|K]; [|apply K; auto].
+  apply M. apply (C y K ch Hc).
+Qed.
+
+Lemma st_frame_view P s s' : recs s' = recs s -> st_frame P s s'.
+Proof. apply st_frame_same_recs. Qed.
+
+Ltac vw := ex_sets; repeat match goal with
+  | H : completed ?a = completed ?b |- context [completed ?a] => rewrite H
+  | H : inprog ?a = inprog ?b |- context [inprog ?a] => rewrite H
+  | H : ready ?a = ready ?b |- context [ready ?a] => rewrite H
+  | H : failed ?a = failed ?b |- context [failed ?a] => rewrite H
+  | H : cancelled ?a = cancelled ?b |- context [cancelled ?a] => rewrite H
+  | H : deps ?a = deps ?b |- context [deps ?a] => rewrite H
+  | H : canceled ?a = canceled ?b |- context [canceled ?a] => rewrite H
+  end.
+Ltac mset := intros; unfold resR, xsame, xstaged, FC, src, getdeps in *; vw; setsimp;
+  first [ tauto | apply incl_refl | intuition (subst; auto; congruence) ].
+
+Lemma st_frame_x (P : nat -> Prop) x s s' : st_frame (eq x) s s' -> st_frame (fun y => y = x \/ P y) s s'.
+Proof. apply st_frame_weaken. intros y <-. left. reflexivity. Qed.
+
+Ltac rs_close RS := match goal with
+  | |- restarts _ <= restarts _ => rewrite ?RS; lia
+  | |- forall y, _ <> _ -> restarts _ = restarts _ => let y := fresh "y" in intros y _; apply RS
+  | |- forall y, restarts _ = restarts _ => exact RS
+  | |- WF _ -> clo _ _ _ -> clo _ _ _ =>
+      let W := fresh "W" in let C := fresh "C" in intros W C; eapply clo_step; [exact C| |]; mset
+  | |- length (recs _) = length (recs _) =>
+      cbn [recs completed_add inprog_add inprog_remove failed_add cancelled_add ready_push rec_set_status rec_inc_restarts
+           rec_push_job deps_prune emit set_recs set_completed set_inprog set_failed set_cancelled set_ready set_deps
+           set_canceled set_next_job set_subs set_evs];
+      rewrite ?length_upd; first [reflexivity | assumption | congruence]
+  end.
+
+Lemma er_astep c g x r s R :
+  astep g false x s R (execute_record_gen c g x r s) R /\
+  (forall y, restarts (getrec (execute_record_gen c g x r s) y) = restarts (getrec s y)) /\
+  (resR (execute_record_gen c g x r s) R x \/ In x (inprog (execute_record_gen c g x r s))).
+Proof.
+  unfold execute_record_gen.
+  set (s0 := if negb r then emit (EGen x) s else s).
+  assert (V0 : same_view s s0) by (unfold s0; destruct (negb r); [apply sv_emit | apply same_view_refl]).
+  assert (F0 : st_frame (eq x) s s0) by (apply st_frame_same_recs; unfold s0; destruct (negb r); reflexivity).
+  assert (L0 : length (recs s0) = length (recs s)) by (unfold s0; destruct (negb r); reflexivity).
+  destruct (dry c).
+  - destruct V0 as [Vc Vi Vr Vf Vx Vd Vk Vrs].
+    assert (RS : forall y, restarts (getrec (completed_add x (rec_set_status x DRYRUN s0)) y) = restarts (getrec s y)).
+    { intros y. gr. rewrite restarts_set_status. apply Vrs. }
+    splits; [constructor| |]; try mset; try rs_close RS.
+    apply st_frame_x. eapply st_frame_trans; [exact F0|]. apply (st_frame_trans _ _ (rec_set_status x DRYRUN s0)).
+    + apply st_frame_set_status. discriminate.
+    + apply st_frame_same_recs. reflexivity.
+  - pose proof (lv_submit g x r (attempts c) s0) as (V1 & F1 & L1).
+    destruct (submit_attempts g x r (attempts c) s0) as [ok s1] eqn:E. cbn [snd] in V1, F1, L1.
+    rewrite L0 in L1.
+    pose proof (same_view_trans _ _ _ V0 V1) as V. pose proof (st_frame_trans _ _ _ _ F0 F1) as F. clear V0 V1 F0 F1.
+    destruct V as [Vc Vi Vr Vf Vx Vd Vk Vrs].
+    destruct ok.
+    + destruct (scheduled (attr g x)); cbn [negb].
+      * assert (RS : forall y, restarts (getrec (inprog_add x s1) y) = restarts (getrec s y)).
+        { intros y. gr. apply Vrs. }
+        splits; [constructor| |]; try mset; try rs_close RS.
+        apply st_frame_x. eapply st_frame_trans; [exact F|apply st_frame_same_recs; reflexivity].
+      * assert (RS : forall y, restarts (getrec (inprog_remove x (completed_add x (rec_set_status x FINISHED (inprog_add x s1)))) y)
+                               = restarts (getrec s y)).
+        { intros y. gr. rewrite restarts_set_status. gr. apply Vrs. }
+        splits; [constructor| |]; try mset; try rs_close RS.
+        apply st_frame_x. eapply st_frame_trans; [exact F|].
+        eapply (st_frame_trans _ _ (rec_set_status x FINISHED (inprog_add x s1))).
+        -- eapply (st_frame_trans _ _ (inprog_add x s1)); [apply st_frame_same_recs; reflexivity|].
+           apply st_frame_set_status. discriminate.
+        -- apply st_frame_same_recs. reflexivity.
+    + pose proof (lv_mfl (bfs_subtree g x) (inprog_remove x s1)) as M. cbn zeta in M.
+      set (s2 := mark_failed_list (bfs_subtree g x) (inprog_remove x s1)) in *.
+      destruct M as (Mc & Mi & Mr & Mx & Md & Mk & Mrs & Mf & Mst & Ml).
+      pose proof (bfs_subtree_root g x) as Root.
+      assert (RS : forall y, restarts (getrec s2 y) = restarts (getrec s y)).
+      { intros y. rewrite Mrs. gr. apply Vrs. }
+      splits; [constructor| |].
+      * intros y. unfold resR. rewrite Mc, Mf, Mx. vw. tauto.
+      * intros y. rewrite Mf. vw. tauto.
+      * intros y Hy. rewrite Mi. vw. setsimp. tauto.
+      * intros y Hy. rewrite Mr. vw. tauto.
+      * intros y _. apply RS.
+      * rewrite RS. lia.
+      * eapply st_frame_trans; [apply st_frame_x; exact F|].
+        eapply st_frame_trans; [apply (st_frame_same_recs _ s1 (inprog_remove x s1)); reflexivity|].
+        eapply st_frame_weaken; [|exact Mst]. intros y Hy. right. apply Mf. left. exact Hy.
+      * intros y. unfold getdeps. rewrite Md. vw. apply incl_refl.
+      * rewrite Mk. vw. reflexivity.
+      * intros W C. eapply clo_step; [exact C| |].
+        -- intros z. unfold FC. rewrite Mf, Mx. vw. tauto.
+        -- intros y. unfold src, FC. rewrite Mk. setoid_rewrite Mf. rewrite Mx. vw. intros [[K|K]|[K|K]]; auto.
+           right. intros ch Hc. left. left. eapply lv_bfs_closed; eauto.
+      * left. unfold resR. rewrite Mf. tauto.
+      * rewrite Ml. exact L1.
+      * exact RS.
+      * left. unfold resR. rewrite Mf. tauto.
+Qed.
+
+Lemma astep_hw g hw x s R s' R' : astep g false x s R s' R' -> astep g hw x s R s' R'.
+Proof.
+  intros [A1 A2 A3 A4 A5 A6 A7 A8 A9 A10 A11 A12]. constructor; auto. destruct A11 as [K|[K|[K|[K|[K _]]]]]; auto. discriminate.
+Qed.
+
+(** pre-composition with a step that only touches the record of [x] *)
+Record qid (x : nat) (s s2 : st) : Prop := {
+  q_view : completed s2 = completed s /\ inprog s2 = inprog s /\ ready s2 = ready s /\ failed s2 = failed s /\
+           cancelled s2 = cancelled s /\ deps s2 = deps s /\ canceled s2 = canceled s;
+  q_restarts : forall y, y <> x -> restarts (getrec s2 y) = restarts (getrec s y);
+  q_restarts_x : restarts (getrec s x) <= restarts (getrec s2 x);
+  q_status : st_frame (eq x) s s2;
+  q_len : length (recs s2) = length (recs s) }.
+
+Lemma astep_pre g hw x s s2 R s' R' : qid x s s2 -> astep g hw x s2 R s' R' -> astep g hw x s R s' R'.
+Proof.
+  intros [(Vc & Vi & Vr & Vf & Vx & Vd & Vk) Q2 Q3 Q4 Q5] [A1 A2 A3 A4 A5 A6 A7 A8 A9 A10 A11 A12].
+  constructor; unfold resR, xsame, xstaged, getdeps, clo, FC in *; rewrite ?Vc, ?Vi, ?Vr, ?Vf, ?Vx, ?Vd, ?Vk in *; auto.
+  - intros y Hy. rewrite A5, Q2; auto.
+  - lia.
+  - eapply st_frame_trans; [apply st_frame_x; exact Q4 | exact A7].
+  - congruence.
+Qed.
+
+Lemma hr_astep c g s cl ca x o s' cl' ca' :
+  handle_report_gen c g (s, cl, ca) (x, o) = (s', cl', ca') ->
+  astep g (oeqb o HWFAILURE) x s (cl ++ ca) s' (cl' ++ ca').
+Proof.
+  unfold handle_report_gen. pose proof (bfs_subtree_root g x) as Root.
+  destruct (oeqb o FINISHED) eqn:E1.
+  { intros H; injection H as <- <- <-. apply astep_hw.
+    assert (RS : forall y, restarts (getrec (inprog_remove x (completed_add x (rec_set_status x FINISHED s))) y) = restarts (getrec s y)).
+    { intros y. gr. apply restarts_set_status. }
+    constructor; try mset; try rs_close RS.
+    apply st_frame_x. apply (st_frame_trans _ _ (rec_set_status x FINISHED s)); [apply st_frame_set_status; discriminate|].
+    apply st_frame_same_recs. reflexivity. }
+  destruct (oeqb o RUNNING) eqn:E2.
+  { intros H; injection H as <- <- <-. apply astep_hw.
+    assert (RS : forall y, restarts (getrec (rec_set_status x RUNNING s) y) = restarts (getrec s y)).
+    { intros y. apply restarts_set_status. }
+    constructor; try mset; try rs_close RS.
+    apply st_frame_x. apply st_frame_set_status; discriminate. }
+  destruct (oeqb o TIMEDOUT) eqn:E3.
+  { assert (E4 : oeqb o HWFAILURE = false) by (destruct o as [[]|]; cbn in *; congruence). rewrite E4.
+    destruct (has_restart (attr g x) && negb (canceled s)).
+    - unfold mark_restart_gen.
+      set (s1 := rec_set_status x TIMEDOUT s).
+      assert (Q1 : qid x s s1).
+      { constructor; [splits; reflexivity | intros; apply restarts_set_status | unfold s1; rewrite restarts_set_status; lia |
+                      apply st_frame_set_status; discriminate | apply len_recs_set_status]. }
+      destruct ((rlimit (attr g x) =? 0) || (restarts (getrec s1 x) <? rlimit (attr g x))).
+      + intros H; injection H as <- <- <-.
+        eapply astep_pre; [|apply er_astep].
+        destruct Q1 as [Qv Q2 Q3 Q4 Q5]. constructor; auto.
+        * intros y Hy. rewrite lv_restarts_inc_neq; auto.
+        * pose proof (lv_restarts_inc_le x x s1). lia.
+        * eapply st_frame_trans; [exact Q4|]. apply st_frame_inc_restarts.
+        * rewrite <- Q5. unfold rec_inc_restarts. cbn. apply length_upd.
+      + intros H; injection H as <- <- <-.
+        eapply astep_pre; [exact Q1|].
+        assert (RS : forall y, restarts (getrec (inprog_remove x s1) y) = restarts (getrec s1 y)) by (intros; reflexivity).
+        constructor; try rs_close RS.
+        * intros y. unfold resR. rewrite !in_app_iff, lv_In_set_union. vw. tauto.
+        * mset.
+        * mset.
+        * mset.
+        * apply st_frame_same_recs. reflexivity.
+        * mset.
+        * mset.
+        * intros W C. eapply clo_step; [exact C| |].
+          -- intros z. unfold FC. rewrite !in_app_iff, lv_In_set_union. vw. tauto.
+          -- intros y. unfold src, FC. setoid_rewrite in_app_iff. setoid_rewrite lv_In_set_union. vw.
+             intros [K|[[[K|K]|K]|K]]; auto 6.
+             right. intros ch Hc. right. right. left. left. eapply lv_bfs_closed; eauto.
+        * left. unfold resR. rewrite in_app_iff, lv_In_set_union. auto 6.
+    - intros H; injection H as <- <- <-.
+      assert (RS : forall y, restarts (getrec (failed_add x (inprog_remove x (rec_set_status x TIMEDOUT s))) y) = restarts (getrec s y)).
+      { intros y. gr. apply restarts_set_status. }
+      constructor; try rs_close RS.
+      * intros y. unfold resR. rewrite !in_app_iff, In_srem, lv_In_set_union. vw. setsimp.
+        destruct (Nat.eq_dec y x); tauto.
+      * mset.
+      * mset.
+      * mset.
+      * apply st_frame_x. apply (st_frame_trans _ _ (rec_set_status x TIMEDOUT s)); [apply st_frame_set_status; discriminate|].
+        apply st_frame_same_recs. reflexivity.
+      * mset.
+      * mset.
+      * intros W C. eapply clo_step; [exact C| |].
+        -- intros z. unfold FC. rewrite !in_app_iff, In_srem, lv_In_set_union. vw. setsimp.
+           destruct (Nat.eq_dec z x); tauto.
+        -- intros y. unfold src, FC. setoid_rewrite in_app_iff. setoid_rewrite In_srem. setoid_rewrite lv_In_set_union. vw.
+           setsimp.
+           assert (SUB : forall z, In z (bfs_subtree g x) -> forall ch, In ch (children (attr g z)) ->
+                    (ch = x \/ In ch (failed s)) \/ In ch (cancelled s) \/ (ch <> x /\ (In ch (bfs_subtree g x) \/ In ch cl)) \/ In ch ca).
+           { intros z Hz ch Hc. pose proof (lv_bfs_closed g x z W Hz ch Hc). destruct (Nat.eq_dec ch x); auto 8. }
+           intros [[->|K]|[[[_ [K|K]]|K]|K]]; auto 8; right; intros ch Hc; rewrite In_sadd; eapply SUB; eauto.
+      * left. unfold resR. vw. setsimp. auto.
+  }
+  destruct (oeqb o HWFAILURE) eqn:E4.
+  { intros H; injection H as <- <- <-.
+    assert (RS : forall y, restarts (getrec (ready_push x (inprog_remove x s)) y) = restarts (getrec s y)) by (intros; reflexivity).
+    constructor; try rs_close RS; try mset.
+    apply st_frame_same_recs. reflexivity. }
+  destruct (oeqb o FAILED) eqn:E5.
+  { intros H; injection H as <- <- <-.
+    assert (RS : forall y, restarts (getrec (rec_set_status x FAILED (inprog_remove x s)) y) = restarts (getrec s y)).
+    { intros y. rewrite restarts_set_status. reflexivity. }
+    constructor; try rs_close RS.
+    * intros y. unfold resR. rewrite !in_app_iff, lv_In_set_union. vw. tauto.
+    * mset.
+    * mset.
+    * mset.
+    * apply st_frame_x. apply (st_frame_trans _ _ (inprog_remove x s)); [apply st_frame_same_recs; reflexivity|].
+      apply st_frame_set_status; discriminate.
+    * mset.
+    * mset.
+    * intros W C. eapply clo_step; [exact C| |].
+      -- intros z. unfold FC. rewrite !in_app_iff, lv_In_set_union. vw. tauto.
+      -- intros y. unfold src, FC. setoid_rewrite in_app_iff. setoid_rewrite lv_In_set_union. vw.
+         intros [K|[[[K|K]|K]|K]]; auto 6.
+         right. intros ch Hc. right. right. left. left. eapply lv_bfs_closed; eauto.
+    * left. unfold resR. rewrite in_app_iff, lv_In_set_union. auto 6. }
+  destruct (oeqb o UNKNOWN) eqn:E6.
+  { intros H; injection H as <- <- <-.
+    assert (RS : forall y, restarts (getrec (inprog_remove x (rec_set_status x UNKNOWN s)) y) = restarts (getrec s y)).
+    { intros y. gr. rewrite restarts_set_status. reflexivity. }
+    constructor; try rs_close RS.
+    * intros y. unfold resR. rewrite !in_app_iff, lv_In_set_union. vw. tauto.
+    * mset.
+    * mset.
+    * mset.
+    * apply st_frame_x. apply (st_frame_trans _ _ (rec_set_status x UNKNOWN s)); [apply st_frame_set_status; discriminate|].
+      apply st_frame_same_recs; reflexivity.
+    * mset.
+    * mset.
+    * intros W C. eapply clo_step; [exact C| |].
+      -- intros z. unfold FC. rewrite !in_app_iff, lv_In_set_union. vw. tauto.
+      -- intros y. unfold src, FC. setoid_rewrite in_app_iff. setoid_rewrite lv_In_set_union. vw.
+         intros [K|[[[K|K]|K]|K]]; auto 6.
+         right. intros ch Hc. right. right. left. left. eapply lv_bfs_closed; eauto.
+    * left. unfold resR. rewrite in_app_iff, lv_In_set_union. auto 6. }
+  destruct (oeqb o CANCELLED) eqn:E7.
+  { intros H; injection H as <- <- <-.
+    assert (RS : forall y, restarts (getrec (rec_set_status x CANCELLED (inprog_remove x s)) y) = restarts (getrec s y)).
+    { intros y. rewrite restarts_set_status. reflexivity. }
+    constructor; try rs_close RS.
+    * intros y. unfold resR. rewrite !in_app_iff, lv_In_set_union. vw. tauto.
+    * mset.
+    * mset.
+    * mset.
+    * apply st_frame_x. apply (st_frame_trans _ _ (inprog_remove x s)); [apply st_frame_same_recs; reflexivity|].
+      apply st_frame_set_status; discriminate.
+    * mset.
+    * mset.
+    * intros W C. eapply clo_step; [exact C| |].
+      -- intros z. unfold FC. rewrite !in_app_iff, lv_In_set_union. vw. tauto.
+      -- intros y. unfold src, FC. setoid_rewrite in_app_iff. setoid_rewrite lv_In_set_union. vw.
+         intros [K|[[K|[K|K]]|K]]; auto 6.
+         right. intros ch Hc. right. right. right. left. eapply lv_bfs_closed; eauto.
+    * left. unfold resR. rewrite in_app_iff, lv_In_set_union. auto 6. }
+  intros H; injection H as <- <- <-.
+  assert (RS : forall y, restarts (getrec s y) = restarts (getrec s y)) by reflexivity.
+  constructor; try rs_close RS; try mset.
+  apply st_frame_refl.
+Qed.
+
+(** ** staging and launching *)
+Lemma astep_id g hw x s R : astep g hw x s R s R.
+Proof.
+  assert (RS : forall y, restarts (getrec s y) = restarts (getrec s y)) by reflexivity.
+  constructor; try rs_close RS; try mset. apply st_frame_refl.
+Qed.
+
+Lemma lv_getdeps_prune_incl x s y : incl (getdeps (deps_prune x s) y) (getdeps s y).
+Proof.
+  destruct (Nat.eq_dec x y) as [->|Hn]; [|rewrite getdeps_prune_neq by auto; apply incl_refl].
+  destruct (Nat.lt_ge_cases y (length (deps s))) as [Hl|Hl].
+  - rewrite getdeps_prune_eq by auto. intros z Hz. apply filter_In in Hz. tauto.
+  - unfold getdeps, deps_prune. cbn. rewrite nth_upd_ge by auto. apply incl_refl.
+Qed.
+
+Lemma stage_astep g s x R : astep g false x s R (stage_node_gen g s x) R /\ recs (stage_node_gen g s x) = recs s.
+Proof.
+  unfold stage_node_gen.
+  destruct (mem x (completed s)); [split; [apply astep_id|reflexivity]|].
+  destruct (state_eqb (status (getrec s x)) INITIALIZED); [|split; [apply astep_id|reflexivity]].
+  assert (D : forall s', deps s' = deps (deps_prune x s) -> forall y, incl (getdeps s' y) (getdeps s y)).
+  { intros s' E y. unfold getdeps at 1. rewrite E. apply lv_getdeps_prune_incl. }
+  assert (A1 : astep g false x s R (deps_prune x s) R).
+  { assert (RS : forall y, restarts (getrec (deps_prune x s) y) = restarts (getrec s y)) by reflexivity.
+    constructor; try (apply D; reflexivity); try rs_close RS; try mset. apply st_frame_same_recs. reflexivity. }
+  destruct (is_nil (getdeps (deps_prune x s) x)); [|split; [exact A1|reflexivity]].
+  destruct (negb (mem x (ready (deps_prune x s)))); [|split; [exact A1|reflexivity]].
+  split; [|reflexivity].
+  assert (RS : forall y, restarts (getrec (ready_push x (deps_prune x s)) y) = restarts (getrec s y)) by reflexivity.
+  constructor; try (apply D; reflexivity); try rs_close RS; try mset. apply st_frame_same_recs. reflexivity.
+Qed.
+
+Lemma astep_pop g hw x rest s R s' R' : ready s = x :: rest ->
+  astep g hw x (set_ready s rest) R s' R' -> (resR s' R' x \/ In x (inprog s')) -> astep g hw x s R s' R'.
+Proof.
+  intros E [A1 A2 A3 A4 A5 A6 A7 A8 A9 A10 A11 A12] O. constructor; auto.
+  - intros y Hy. rewrite (A4 y Hy). cbn. rewrite E. cbn. intuition congruence.
+  - tauto.
+Qed.
+
+Lemma launch_nil c g s : ready s = [] -> launch_body_gen c g s = s.
+Proof. intros E. unfold launch_body_gen. rewrite E. reflexivity. Qed.
+
+Lemma launch_astep c g s x rest : ready s = x :: rest ->
+  astep g false x s [] (launch_body_gen c g s) [] /\
+  (resR (launch_body_gen c g s) [] x \/ In x (inprog (launch_body_gen c g s))) /\
+  restarts (getrec (launch_body_gen c g s) x) = restarts (getrec s x).
+Proof.
+  intros E. unfold launch_body_gen. rewrite E.
+  change (canceled (set_ready s rest)) with (canceled s).
+  destruct (canceled s) eqn:K.
+  - assert (RS : forall y, restarts (getrec (cancelled_add x (rec_set_status x CANCELLED (set_ready s rest))) y) = restarts (getrec s y)).
+    { intros y. gr. rewrite restarts_set_status. reflexivity. }
+    assert (O : resR (cancelled_add x (rec_set_status x CANCELLED (set_ready s rest))) [] x) by mset.
+    splits; auto.
+    eapply astep_pop; [exact E| |left; exact O].
+    assert (RS' : forall y, restarts (getrec (cancelled_add x (rec_set_status x CANCELLED (set_ready s rest))) y) =
+                            restarts (getrec (set_ready s rest) y)).
+    { intros y. rewrite RS. reflexivity. }
+    constructor; try rs_close RS'; try mset.
+    apply st_frame_x. apply (st_frame_trans _ _ (rec_set_status x CANCELLED (set_ready s rest))).
+    + apply st_frame_set_status. discriminate.
+    + apply st_frame_same_recs. reflexivity.
+  - destruct (er_astep c g x false (set_ready s rest) []) as (A & RS & O).
+    splits; auto. + eapply astep_pop; eauto. + rewrite RS. reflexivity.
+Qed.
+
+(** ** sequences of steps *)
+Inductive msteps (g : graph) (hw : bool) : st -> list nat -> st -> list nat -> Prop :=
+| ms_refl s R : msteps g hw s R s R
+| ms_step x s R s1 R1 s2 R2 : astep g hw x s R s1 R1 ->
+    (tracked s R x \/ forall y, status (getrec s1 y) = status (getrec s y)) ->
+    msteps g hw s1 R1 s2 R2 -> msteps g hw s R s2 R2.
+
+Lemma ms_trans g hw s R s1 R1 s2 R2 : msteps g hw s R s1 R1 -> msteps g hw s1 R1 s2 R2 -> msteps g hw s R s2 R2.
+Proof. induction 1; auto. intros. econstructor; eauto. Qed.
+Lemma ms_one g hw x s R s1 R1 : astep g hw x s R s1 R1 ->
+  (tracked s R x \/ forall y, status (getrec s1 y) = status (getrec s y)) -> msteps g hw s R s1 R1.
+Proof. intros. econstructor; eauto. constructor. Qed.
+
+Lemma ms_wle g s R s' R' : msteps g false s R s' R' -> wle g s R s' R'.
+Proof. induction 1; [apply wle_refl|]. eapply wle_trans; [eapply astep_wle; eauto|auto]. Qed.
+Lemma ms_tracked g hw s R s' R' y : msteps g hw s R s' R' -> tracked s R y -> tracked s' R' y.
+Proof. induction 1; auto. intros T. apply IHmsteps. eapply astep_tracked; eauto. Qed.
+Lemma ms_acct g hw s R s' R' : msteps g hw s R s' R' -> acct s R -> acct s' R'.
+Proof.
+  induction 1; auto. intros A. apply IHmsteps. destruct H0 as [T|E].
+  - eapply astep_acct; eauto.
+  - intros y Hy. rewrite E in Hy. eapply astep_tracked; eauto.
+Qed.
+Lemma ms_clo g hw s R s' R' : WF g -> msteps g hw s R s' R' -> clo g s R -> clo g s' R'.
+Proof. intros W. induction 1; auto. intros C. apply IHmsteps. eapply as_clo; eauto. Qed.
+Lemma ms_depsok g hw s R s' R' : msteps g hw s R s' R' -> depsok g s -> depsok g s'.
+Proof. induction 1; auto. intros D. apply IHmsteps. eapply astep_depsok; eauto. Qed.
+Lemma ms_canceled g hw s R s' R' : msteps g hw s R s' R' -> canceled s' = canceled s.
+Proof. induction 1; auto. rewrite IHmsteps. eapply as_canceled; eauto. Qed.
+Lemma ms_len g hw s R s' R' : msteps g hw s R s' R' -> length (recs s') = length (recs s).
+Proof. induction 1; auto. rewrite IHmsteps. eapply as_len; eauto. Qed.
+
+Lemma astep_hw_le g hw hw' x s R s' R' : (hw = true -> hw' = true) -> astep g hw x s R s' R' -> astep g hw' x s R s' R'.
+Proof.
+  intros H [A1 A2 A3 A4 A5 A6 A7 A8 A9 A10 A11 A12]. constructor; auto.
+  destruct A11 as [K|[K|[K|[K|[K1 K2]]]]]; auto 7.
+Qed.
+
+Definition is_hw (r : nat * option State) : bool := oeqb (snd r) HWFAILURE.
+
+Lemma fold_hr_msteps c g hw reps : forall s cl ca s' cl' ca',
+  fold_left (handle_report_gen c g) reps (s, cl, ca) = (s', cl', ca') ->
+  (forall r, In r reps -> tracked s (cl ++ ca) (fst r)) ->
+  (forall r, In r reps -> is_hw r = true -> hw = true) ->
+  msteps g hw s (cl ++ ca) s' (cl' ++ ca').
+Proof.
+  induction reps as [|[x o] reps IH]; intros s cl ca s' cl' ca' E T H; cbn [fold_left] in E.
+  - injection E as <- <- <-. constructor.
+  - destruct (handle_report_gen c g (s, cl, ca) (x, o)) as [[s1 cl1] ca1] eqn:E1.
+    pose proof (hr_astep c g s cl ca x o s1 cl1 ca1 E1) as A.
+    assert (A' : astep g hw x s (cl ++ ca) s1 (cl1 ++ ca1)).
+    { eapply astep_hw_le; [|exact A]. intros K. apply (H (x, o)); [left; reflexivity|exact K]. }
+    econstructor; [exact A' | left; apply (T (x, o)); left; reflexivity |].
+    eapply IH; eauto.
+    + intros r Hr. eapply astep_tracked; [exact A'|]. apply T. right. exact Hr.
+    + intros r Hr. apply H. right. exact Hr.
+Qed.
+
+Lemma fold_hr_wle c g reps : forall s cl ca s' cl' ca',
+  fold_left (handle_report_gen c g) reps (s, cl, ca) = (s', cl', ca') ->
+  existsb is_hw reps = false ->
+  wle g s (cl ++ ca) s' (cl' ++ ca') /\ length (recs s') = length (recs s).
+Proof.
+  induction reps as [|[x o] reps IH]; intros s cl ca s' cl' ca' E H; cbn [fold_left] in E.
+  - injection E as <- <- <-. split; [apply wle_refl|reflexivity].
+  - destruct (handle_report_gen c g (s, cl, ca) (x, o)) as [[s1 cl1] ca1] eqn:E1.
+    cbn [existsb] in H. apply orb_false_iff in H. destruct H as [H1 H2].
+    pose proof (hr_astep c g s cl ca x o s1 cl1 ca1 E1) as A. unfold is_hw in H1. cbn [snd] in H1. rewrite H1 in A.
+    destruct (IH _ _ _ _ _ _ E H2) as [W L]. split.
+    + eapply wle_trans; [eapply astep_wle; exact A|exact W].
+    + rewrite L. eapply as_len; eauto.
+Qed.
+
+(** ** the two sweeps *)
+Lemma wtR_ext g s R s' R' y : (resR s' R' y <-> resR s R y) ->
+  (In y (inprog s') <-> In y (inprog s)) -> (In y (ready s') <-> In y (ready s)) ->
+  restarts (getrec s' y) = restarts (getrec s y) -> wtR g s' R' y = wtR g s R y.
+Proof.
+  intros H1 H2 H3 H4. destruct (resR_dec s R y) as [K|K].
+  - rewrite !wtR_res; auto. tauto.
+  - rewrite !wtR_unres; auto; [|tauto]. rewrite (stagew_ext s s' y H2 H3). unfold budget. rewrite H4. reflexivity.
+Qed.
+
+Record sweep_rel (g : graph) (s : st) (R : list nat) (s2 : st) : Prop := {
+  sw_wt : forall y, wtR g s2 [] y = wtR g s R y;
+  sw_tracked : forall y, tracked s R y -> tracked s2 [] y;
+  sw_acct : acct s R -> acct s2 [];
+  sw_clo : clo g s R -> clo g s2 [];
+  sw_deps : deps s2 = deps s;
+  sw_canceled : canceled s2 = canceled s;
+  sw_inprog : inprog s2 = inprog s;
+  sw_ready : ready s2 = ready s;
+  sw_len : length (recs s2) = length (recs s) }.
+
+Lemma sweep_facts g s cl ca : sweep_rel g s (cl ++ ca) (mark_cancelled_list ca (mark_failed_list cl s)).
+Proof.
+  pose proof (lv_mfl cl s) as M1. cbn zeta in M1. set (s1 := mark_failed_list cl s) in *.
+  pose proof (lv_mcl ca s1) as M2. cbn zeta in M2. set (s2 := mark_cancelled_list ca s1) in *.
+  destruct M1 as (Ac & Ai & Ar & Ax & Ad & Ak & Ars & Af & Ast & Al).
+  destruct M2 as (Bc & Bi & Br & Bf & Bd & Bk & Brs & Bx & Bst & Bl).
+  assert (RES : forall y, resR s2 [] y <-> resR s (cl ++ ca) y).
+  { intros y. unfold resR. rewrite Bc, Bf, Bx, Ac, Af, Ax, in_app_iff. cbn [In]. tauto. }
+  assert (TR : forall y, tracked s (cl ++ ca) y -> tracked s2 [] y).
+  { intros y. unfold tracked. rewrite RES, Bi, Br, Ai, Ar. tauto. }
+  constructor; try congruence.
+  - intros y. apply wtR_ext; auto; try (rewrite ?Bi, ?Br, ?Ai, ?Ar; tauto). rewrite Brs, Ars. reflexivity.
+  - exact TR.
+  - intros A y Hy. destruct (Bst y) as [E|[K _]].
+    + rewrite E in Hy. destruct (Ast y) as [E'|[K _]].
+      * rewrite E' in Hy. apply TR. apply A. exact Hy.
+      * left. apply RES. unfold resR. rewrite in_app_iff. auto 6.
+    + left. apply RES. unfold resR. rewrite in_app_iff. auto 6.
+  - intros C y Hy ch Hc. unfold FC. rewrite Bf, Bx, Af, Ax. cbn [In].
+    assert (K : FC s (cl ++ ca) ch).
+    { apply (C y); auto. rewrite Bf, Bx, Af, Ax, Bk, Ak in Hy. cbn [In] in Hy. rewrite in_app_iff. tauto. }
+    unfold FC in K. rewrite in_app_iff in K. tauto.
+Qed.
